@@ -1023,7 +1023,7 @@ def run_parse_csv(repo, libfuncs, rule='E6l'):
 
 
 # ------------------------------------------------------------------------------------------------ JSON
-class JsonInterp(LibInterp):
+class JsonMixin:
     """json.loads and the encode() of a json.JSONEncoder subclass instance are exact host models on concrete JSON values (the subclass's default() is never reached by them)"""
 
     def _encoder_kwargs(self, inst):
@@ -1080,6 +1080,10 @@ class JsonInterp(LibInterp):
             except (ValueError, TypeError) as exc:
                 raise RaiseSig(type(exc).__name__, (str(exc),), e)
         return super().host_function(name, args, e)
+
+
+class JsonInterp(JsonMixin, LibInterp):
+    pass
 
 
 def _is_json_value(v):
